@@ -14,7 +14,7 @@ def run(ctx):
     ctx.assume("regex-syntax's \\d \\s \\w are exactly the tables referenced by unicode::perl_{digit,space,word}::imp in the version the lock file resolves")
     prog = common.view(ctx, "default")
     lib = prog.lib
-    roles = common.role_fields(ctx, lib)
+    roles = common.role_fields(ctx, lib, want=common.CLASS_ROLES)
     r = common.cls1(ctx, prog, lib, roles)
     clo, pred_class, info = common.classify_predicates(ctx, prog, lib)
     if clo is None:
